@@ -26,5 +26,6 @@ TECHNIQUE = "stateful property-based testing of the real Consumer + KafkaClient 
 RULE = (
     "traces over one Consumer (buffer 64..1 MiB+1, optional maximum, retry delays 0.05..30 s, attempt limit 0..5, reset policy none/earliest/latest, auto-commit every n / every ms, with or without a group) on a 1-2 broker simulated cluster; the log holds plain and gzip-wrapper batches in message format 0 or 1 with compaction gaps, null values and messages larger than the buffer, and is appended to / head-truncated while the consumer runs; steps: start (numeric / earliest / latest / committed), deliver or hold a reply, fire a timer, complete an async processor call (ok / fail), commit, stop, shutdown, crash (drop the consumer object and client, keep the cluster), error codes on fetch / offsets / commit / coordinator lookup, connection drops, broker down/up, leader and coordinator moves. oracle: every processor invocation is compared with the partition log (every record ever appended): from the run's resolved start position (the number the broker answered for earliest/latest, stored offset + 1 for committed) the delivered offsets are exactly the log's records in order, no repeat, no omission, with the stored key and value; the only accepted jump is an out-of-range answer followed by the configured reset (continues at the offset the broker gave); the processor is never entered while the previous result is pending; once faults cease and the run has not ended, everything in the log is delivered within the quiet horizon. non-trivial = a run that needed more than one fetch and saw a wrapper batch, a fault or buffer growth, or a run that recovered after faults; distinct = distinct trace."
     ' The scripted processor also returns already-fired Deferreds paused on inner work (result still pending); a run that gives up below max_buffer_size on a message that fits it is a completeness violation; messages of a reply fetched before an out-of-range answer continue the old stream.'
+    ' With an attempt limit N >= 3, a run that fails on a retriable broker error after fewer than N-1 consecutive failed requests following a successful one gave up within its budget (the unchanged tree gives up at N-1).'
 )
 ASSUMPTIONS = ['simkafka models a 0.10-era broker incl. wrappers returned whole, mid-message cuts at max_bytes and long polls (DESIGN.md 2.4)', 'a reply counts as received only if delivered before the client-side deadline of its request; replies to a previous run or incarnation are attributed by correlation id and run', 'connect latency 5 ms, service latency per reply drawn; retry-delay expectations use the constants documented in afkak/consumer.py (factor 1.20205)']
